@@ -160,9 +160,13 @@ Definition abs (f : file) : kstate :=
 (* a directive as seen from either side: the line, the verb, the (normalised) arguments *)
 Definition dview := (lid * str * list str)%type.
 
-(* retract lines are compared by their interval (v and [v, v] denote the same interval) *)
-Definition norm_args (verb : str) (args : list str) : list str :=
-  if str_eqb verb v_retract then let (a, b) := retract_interval args in [a; b] else args.
+(* what a line says, normalised: retract lines by their interval (v and [v, v] denote the
+   same interval), require lines with their "// indirect" marking as an extra token *)
+Definition flag (b : bool) : str := if b then [49] else [48].
+Definition norm_args (verb : str) (args : list str) (l : hline) : list str :=
+  if str_eqb verb v_retract then let (a, b) := retract_interval args in [a; b]
+  else if str_eqb verb v_require then args ++ [flag (is_indirect l)]
+  else args.
 
 (* the lines of the tree with the verb of the enclosing block, if any *)
 Definition tree_lines (s : syntax) : list (lid * option str) :=
@@ -179,31 +183,51 @@ Definition line_view (s : syntax) (x : lid * option str) : list dview :=
   | [] => []
   | t :: ts =>
       match snd x with
-      | None => [(fst x, t, norm_args t ts)]
-      | Some v => [(fst x, v, norm_args v (t :: ts))]
+      | None => [(fst x, t, norm_args t ts l)]
+      | Some v => [(fst x, v, norm_args v (t :: ts) l)]
       end
   end.
 
 Definition tree_view (s : syntax) : list dview := flat_map (line_view s) (tree_lines s).
 
-Definition ev (o : option lid) (live : bool) (verb : str) (args : list str) : list dview :=
-  match o with
-  | Some i => if live then [(i, verb, norm_args verb args)] else []
+(* a typed entry seen uniformly: its line, whether it is live (not cleared), and the verb
+   and normalised arguments its line must show *)
+Record ent := mkEnt { en_syn : option lid; en_live : bool; en_verb : str; en_args : list str }.
+
+Definition ent_module (m : e_module) : ent := mkEnt (mo_syn m) true v_module [auto_quote (mo_path m)].
+Definition ent_go (g : e_go) : ent := mkEnt (go_syn g) true v_go [go_vers g].
+Definition ent_toolchain (g : e_go) : ent := mkEnt (go_syn g) true v_toolchain [go_vers g].
+Definition ent_godebug (g : e_godebug) : ent :=
+  mkEnt (gd_syn g) (nonempty (gd_key g)) v_godebug [gd_key g ++ [61] ++ gd_val g].
+Definition ent_require (r : e_require) : ent :=
+  mkEnt (rq_syn r) (nonempty (rq_path r)) v_require [auto_quote (rq_path r); rq_vers r; flag (rq_ind r)].
+Definition ent_exclude (x : e_exclude) : ent :=
+  mkEnt (ex_syn x) (nonempty (ex_path x)) v_exclude [auto_quote (ex_path x); ex_vers x].
+Definition ent_replace (r : e_replace) : ent :=
+  mkEnt (rp_syn r) (nonempty (rp_op r)) v_replace (replace_tokens (rp_op r) (rp_ov r) (rp_np r) (rp_nv r)).
+Definition ent_retract (r : e_retract) : ent :=
+  mkEnt (rt_syn r) (nonempty (rt_lo r) || nonempty (rt_hi r)) v_retract
+        [auto_quote (rt_lo r); auto_quote (rt_hi r)].
+Definition ent_tool (t : e_tool) : ent := mkEnt (tl_syn t) (nonempty (tl_path t)) v_tool [auto_quote (tl_path t)].
+Definition ent_use (u : e_use) : ent := mkEnt (us_syn u) (nonempty (us_path u)) v_use [auto_quote (us_path u)].
+
+Definition opt_list {A} (o : option A) : list A := match o with Some x => [x] | None => [] end.
+
+(* all typed entries of a file *)
+Definition entries (f : file) : list ent :=
+  map ent_module (opt_list (f_module f)) ++ map ent_go (opt_list (f_go f))
+  ++ map ent_toolchain (opt_list (f_toolchain f))
+  ++ map ent_godebug (f_godebug f) ++ map ent_require (f_require f) ++ map ent_exclude (f_exclude f)
+  ++ map ent_replace (f_replace f) ++ map ent_retract (f_retract f) ++ map ent_tool (f_tool f)
+  ++ map ent_use (f_use f).
+
+Definition ent_view (e : ent) : list dview :=
+  match en_syn e with
+  | Some i => if en_live e then [(i, en_verb e, en_args e)] else []
   | None => []
   end.
 
-Definition typed_view (f : file) : list dview :=
-  match f_module f with Some m => ev (mo_syn m) true v_module [auto_quote (mo_path m)] | None => [] end
-  ++ match f_go f with Some g => ev (go_syn g) true v_go [go_vers g] | None => [] end
-  ++ match f_toolchain f with Some g => ev (go_syn g) true v_toolchain [go_vers g] | None => [] end
-  ++ flat_map (fun g => ev (gd_syn g) (nonempty (gd_key g)) v_godebug [gd_key g ++ [61] ++ gd_val g]) (f_godebug f)
-  ++ flat_map (fun r => ev (rq_syn r) (nonempty (rq_path r)) v_require [auto_quote (rq_path r); rq_vers r]) (f_require f)
-  ++ flat_map (fun x => ev (ex_syn x) (nonempty (ex_path x)) v_exclude [auto_quote (ex_path x); ex_vers x]) (f_exclude f)
-  ++ flat_map (fun r => ev (rp_syn r) (nonempty (rp_op r)) v_replace (replace_tokens (rp_op r) (rp_ov r) (rp_np r) (rp_nv r))) (f_replace f)
-  ++ flat_map (fun r => ev (rt_syn r) (nonempty (rt_lo r) || nonempty (rt_hi r)) v_retract
-                           [B "["; auto_quote (rt_lo r); B ","; auto_quote (rt_hi r); B "]"]) (f_retract f)
-  ++ flat_map (fun t => ev (tl_syn t) (nonempty (tl_path t)) v_tool [auto_quote (tl_path t)]) (f_tool f)
-  ++ flat_map (fun u => ev (us_syn u) (nonempty (us_path u)) v_use [auto_quote (us_path u)]) (f_use f).
+Definition typed_view (f : file) : list dview := flat_map ent_view (entries f).
 
 (* shape of the syntax tree: every line occurs once, ids are allocated, the InBlock flag
    says where the line sits, block headers have one token *)
@@ -220,34 +244,15 @@ Record SyntaxOk (s : syntax) : Prop := {
   so_blocks : Forall block_ok (stmts s)
 }.
 
-(* cleared entries are the zero values, live entries have a line *)
-Definition entry_ok (live : bool) (o : option lid) : Prop := if live then o <> None else o = None.
-
-Record EntriesOk (f : file) : Prop := {
-  eo_module : match f_module f with Some m => mo_syn m <> None | None => True end;
-  eo_go : match f_go f with Some g => go_syn g <> None | None => True end;
-  eo_toolchain : match f_toolchain f with Some g => go_syn g <> None | None => True end;
-  eo_godebug : Forall (fun g => entry_ok (nonempty (gd_key g)) (gd_syn g)) (f_godebug f);
-  eo_require : Forall (fun r => entry_ok (nonempty (rq_path r)) (rq_syn r)) (f_require f);
-  eo_exclude : Forall (fun x => entry_ok (nonempty (ex_path x)) (ex_syn x)) (f_exclude f);
-  eo_replace : Forall (fun r => entry_ok (nonempty (rp_op r)) (rp_syn r)) (f_replace f);
-  eo_retract : Forall (fun r => entry_ok (nonempty (rt_lo r) || nonempty (rt_hi r)) (rt_syn r)) (f_retract f);
-  eo_tool : Forall (fun t => entry_ok (nonempty (tl_path t)) (tl_syn t)) (f_tool f);
-  eo_use : Forall (fun u => entry_ok (nonempty (us_path u)) (us_syn u)) (f_use f)
-}.
-
-Definition indirect_ok (f : file) : Prop :=
-  Forall (fun r => match rq_syn r with
-                   | Some i => is_indirect (sget (fsyn f) i) = rq_ind r
-                   | None => True
-                   end) (f_require f).
+(* a live entry has a line, a cleared entry (zero value) has none *)
+Definition ent_ok (e : ent) : Prop := if en_live e then en_syn e <> None else en_syn e = None.
+Definition EntriesOk (f : file) : Prop := Forall ent_ok (entries f).
 
 (* C15: the typed lists and the live lines of the tree are the same directives *)
 Record Coherent (f : file) : Prop := {
   co_syntax : SyntaxOk (fsyn f);
   co_entries : EntriesOk f;
-  co_views : Permutation (tree_view (fsyn f)) (typed_view f);
-  co_indirect : indirect_ok f
+  co_views : Permutation (tree_view (fsyn f)) (typed_view f)
 }.
 
 (* ---- executable mirrors, evaluated by the correspondence run on every case *)
@@ -277,21 +282,9 @@ Definition syntax_okb (s : syntax) : bool :=
              (tree_lines s)
   && forallb (fun st => match st with SBlock b => Nat.eqb (length (hb_tok b)) 1 | _ => true end) (stmts s).
 
-Definition entry_okb (live : bool) (o : option lid) : bool :=
-  match o with Some _ => live | None => negb live end.
-Definition some_b {A} (o : option A) : bool := match o with Some _ => true | None => false end.
-
-Definition entries_okb (f : file) : bool :=
-  match f_module f with Some m => some_b (mo_syn m) | None => true end
-  && match f_go f with Some g => some_b (go_syn g) | None => true end
-  && match f_toolchain f with Some g => some_b (go_syn g) | None => true end
-  && forallb (fun g => entry_okb (nonempty (gd_key g)) (gd_syn g)) (f_godebug f)
-  && forallb (fun r => entry_okb (nonempty (rq_path r)) (rq_syn r)) (f_require f)
-  && forallb (fun x => entry_okb (nonempty (ex_path x)) (ex_syn x)) (f_exclude f)
-  && forallb (fun r => entry_okb (nonempty (rp_op r)) (rp_syn r)) (f_replace f)
-  && forallb (fun r => entry_okb (nonempty (rt_lo r) || nonempty (rt_hi r)) (rt_syn r)) (f_retract f)
-  && forallb (fun t => entry_okb (nonempty (tl_path t)) (tl_syn t)) (f_tool f)
-  && forallb (fun u => entry_okb (nonempty (us_path u)) (us_syn u)) (f_use f).
+Definition ent_okb (e : ent) : bool :=
+  match en_syn e with Some _ => en_live e | None => negb (en_live e) end.
+Definition entries_okb (f : file) : bool := forallb ent_okb (entries f).
 
 (* with distinct line ids on both sides, equal as multisets = mutual inclusion *)
 Definition views_okb (f : file) : bool :=
@@ -301,14 +294,8 @@ Definition views_okb (f : file) : bool :=
   && forallb (fun x => existsb (dview_eqb x) yv) tv
   && forallb (fun x => existsb (dview_eqb x) tv) yv.
 
-Definition indirect_okb (f : file) : bool :=
-  forallb (fun r => match rq_syn r with
-                    | Some i => Bool.eqb (is_indirect (sget (fsyn f) i)) (rq_ind r)
-                    | None => true
-                    end) (f_require f).
-
 Definition coherentb (f : file) : bool :=
-  syntax_okb (fsyn f) && entries_okb f && views_okb f && indirect_okb f.
+  syntax_okb (fsyn f) && entries_okb f && views_okb f.
 
 (* ================================================================ 3. valid arguments *)
 
